@@ -234,6 +234,32 @@ class SimpleVariableCollector(NodeVisitor):
         self.vars.add(node.id)
 
 
+class _DeclarationHoister(NodeTransformer):
+    """Remove the global/nonlocal declarations of a function body.
+
+    The declarations are collected in the ``declarations`` list so that they
+    can be put back at the very top of the transformed function (nested
+    functions and classes are separate scopes and are left alone).
+    """
+
+    def __init__(self):
+        super().__init__()
+        self.declarations = []
+
+    def visit_FunctionDef(self, node):
+        return node
+
+    visit_AsyncFunctionDef = visit_FunctionDef
+    visit_ClassDef = visit_FunctionDef
+    visit_Lambda = visit_FunctionDef
+
+    def visit_Global(self, node):
+        self.declarations.append(node)
+        return ast.copy_location(ast.Pass(), node)
+
+    visit_Nonlocal = visit_Global
+
+
 class PteraTransformer(NodeTransformer):
     """Transform the AST of a function to instrument it with ptera.
 
@@ -644,7 +670,12 @@ class PteraTransformer(NodeTransformer):
                 wrapped_body.append(first)
                 body = body[1:]
 
-        stmts = list(node.body)
+        # global/nonlocal declarations must come before the statements we
+        # insert at the top of the function (prefetch of globals, closure
+        # variables, parameters)
+        hoister = _DeclarationHoister()
+        stmts = [hoister.visit(stmt) for stmt in node.body]
+        wrapped_body.extend(hoister.declarations)
         if not isinstance(stmts[-1], ast.Return):
             # Falling off the end returns None: report it like any return
             stmts.append(ast.Return(value=None))
